@@ -41,11 +41,20 @@ calls = collections.Counter()      # wrapper name -> number of calls (process wi
 _calls_lock = threading.Lock()
 
 
+class WorkBoundExceeded(BaseException):
+    """Raised by a probe inside the code under test when a LOGICAL work bound is exceeded (scanner read far past
+    the end of file, matcher calls far above the linear budget): the bounded-work form of 'nothing hangs'."""
+
+
+EOF_READ_BOUND = 2000            # reads of one scanner after it reported end of file
+MATCH_CALLS_PER_READ_BOUND = 400  # matcher calls per scanner read (budget per line is 36), plus a constant
+
+
 class ParseLog:
     __slots__ = ("reads", "events", "builds", "transitions", "match_calls", "errors_added",
                  "la_calls", "queue_pops", "opaque", "scanner_kind", "source", "stop",
                  "outcome", "matcher_state_at_start", "builder_state_at_start", "ids",
-                 "_cur_la", "_built", "reset_calls", "n_match", "dialect_changes", "tokens")
+                 "_cur_la", "_built", "reset_calls", "n_match", "dialect_changes", "tokens", "eof_reads")
 
     def __init__(self):
         self.reads = []            # (scanner id, line, is_eof)
@@ -70,6 +79,7 @@ class ParseLog:
         self.n_match = 0
         self.dialect_changes = []
         self.tokens = []
+        self.eof_reads = 0
 
 
 def capture_tokens(on=True):
@@ -248,9 +258,14 @@ def install():
             if log is not None:
                 _count("TokenScanner.read")
                 try:
-                    log.reads.append((id(self), tok.location.get("line"), tok.eof()))
+                    eof = tok.eof()
+                    log.reads.append((id(self), tok.location.get("line"), eof))
                 except Exception:
-                    pass
+                    eof = False
+                if eof:
+                    log.eof_reads += 1
+                    if log.eof_reads > EOF_READ_BOUND:
+                        raise WorkBoundExceeded("the scanner was read %d times after the end of the file" % log.eof_reads)
             return tok
         return read
     patch(TokenScanner, "read", mk_read)
@@ -273,6 +288,8 @@ def install():
                 if log is None:
                     return orig(self, token)
                 log.n_match += 1
+                if log.n_match > MATCH_CALLS_PER_READ_BOUND * (len(log.reads) + 25):
+                    raise WorkBoundExceeded("%d matcher calls for %d lines read" % (log.n_match, len(log.reads)))
                 try:
                     line = token.location["line"]
                 except Exception:
